@@ -409,7 +409,7 @@ func (c *Chain) NextBlock(dt time.Duration) ([]Event, error) {
 // (uncommitted effects of already delivered transactions are visible), or
 // over the check state (== last committed state) between blocks.
 func (c *Chain) Ctx() sdk.Context {
-	if c.InBlock || (c.Height == 0 && c.LastHash == nil) {
+	if c.InBlock || c.LastHash == nil {
 		// after InitChain and before the first Commit the genesis writes live in the deliver state
 		return c.App.BaseApp.NewContext(false, c.header)
 	}
